@@ -381,7 +381,7 @@ func (st *c13State) spec(s string, lang syntax.LangVariant, known bool) {
 
 func (st *c13State) runShells() {
 	c := st.c
-	res := parallelMap(len(st.jobs), 8, func(i int) ShellResult {
+	res := parallelMap(len(st.jobs), 4, func(i int) ShellResult {
 		var r ShellResult
 		for attempt := 0; attempt < 3; attempt++ {
 			r = runShell(c, st.jobs[i].shell, "printf %s "+st.jobs[i].q)
